@@ -22,7 +22,7 @@ _BASIS_CACHE = {}
 
 
 def get_basis(crystal, order, cutoff=None, ops=None, key_extra=None):
-    key = (id(crystal), order, cutoff, key_extra)
+    key = (crystal.lattice.tobytes(), crystal.positions.tobytes(), crystal.numbers.tobytes(), order, cutoff, key_extra)
     if key not in _BASIS_CACHE:
         _BASIS_CACHE[key] = basis_cls(order)(crystal.atoms(), cutoff=cutoff, spacegroup_operations=ops).run()
     return _BASIS_CACHE[key]
